@@ -20,7 +20,7 @@ def vshow(x):
         return "nan"
     if math.isinf(x):
         return "inf" if x > 0 else "-inf"
-    f = Fraction(repr(x))
+    f = Fraction(x)
     return f"{f.numerator}/{f.denominator}"
 
 
